@@ -83,6 +83,29 @@ Theorem C29_no_lost_update : forall t1 rt1 t2 rt2 B lg1 lg1' s ks v,
 Proof. exact no_lost_update. Qed.
 Print Assumptions C29_no_lost_update.
 
+(* the first clause of the property over a WHOLE transaction (any number of writes; tx_rel t rt holds for every transaction
+   of every reachable state under arbitrary interleavings - C29_reachable_ok - and r_log rt is the list of its successful
+   writes since its start / last commit):
+   - the value LAST written: if the last write covering an option was ks := v (no later write of the transaction is on a
+     path comparable with ks) the option, and everything below it, reads as v - with v = null the option is gone;
+   - otherwise the COMMITTED value: an option of the configuration the transaction started from, on a path diverging from
+     every write of the transaction, reads as committed (nulls purged); a transaction that wrote nothing reads exactly the
+     committed configuration. *)
+Theorem C29_reads_last_written : forall t rt lg1 lg2 s ks v, tx_rel t rt ->
+  r_log rt = lg1 ++ (s, ks, v) :: lg2 ->
+  (forall w, In w lg2 -> fst (fst w) = s -> diverge ks (snd (fst w)) = true) ->
+  forall q, tx_get t s (ks ++ q) = get_node q (purge v).
+Proof. exact view_last_written. Qed.
+Print Assumptions C29_reads_last_written.
+
+Theorem C29_reads_committed_if_unwritten :
+  (forall t rt s q t0, tx_rel t rt -> q <> [] ->
+     (forall w, In w (r_log rt) -> fst (fst w) = s -> diverge q (snd (fst w)) = true) ->
+     get_node q (lookup s (tx_pristine t)) = GOk t0 -> tx_get t s q = pg (GOk t0)) /\
+  (forall c s q, tx_get (new_tx c) s q = get_from q (purge_list (snap_map c s))).
+Proof. exact (conj view_unwritten_is_committed fresh_reads_committed). Qed.
+Print Assumptions C29_reads_committed_if_unwritten.
+
 (* traversal through a scalar is rejected - the scalar may sit in the configuration as of transaction start (even if
    the transaction has since replaced it) or in the transaction's own view - nothing else is, and a rejected Set
    changes nothing *)
@@ -140,3 +163,35 @@ Example ex_two_commits :
 Proof. vm_compute. reflexivity. Qed.
 Example ex_tx_ok : tx_ok (new_tx ex_cfg).
 Proof. exists (mkRtx ex_cfg []). now apply rel_empty. Qed.
+
+(* nested dotted paths, two transactions from the same base: transaction 0 writes b.d, transaction 1 writes b.a; each
+   sees only its own write until commit; transaction 1 commits FIRST, then 0 - the other order of ex_two_commits - and
+   the committed b holds both (same final configuration in either order) *)
+Example ex_two_commits_other_order :
+  run (mkState ex_cfg [] []) [ONew; ONew; OSet 0 115 [98; 100] (Atom 3%Z); OSet 1 115 [98; 97] (Atom 4%Z);
+                              OGet 0 115 [98]; OGet 1 115 [98]; OCommit 1; OGet 0 115 [98]; OCommit 0; ONew; OGet 2 115 [98]] =
+  [BCfg ex_cfg []; BCfg ex_cfg []; BSet true; BSet true;
+   BGet (GOk (Obj [(99, Atom 2%Z); (100, Atom 3%Z)])); BGet (GOk (Obj [(97, Atom 4%Z); (99, Atom 2%Z)]));
+   BCfg [(115, Obj [(97, Atom 1%Z); (98, Obj [(97, Atom 4%Z); (99, Atom 2%Z)])])] [];
+   BGet (GOk (Obj [(99, Atom 2%Z); (100, Atom 3%Z)]));
+   BCfg [(115, Obj [(97, Atom 1%Z); (98, Obj [(97, Atom 4%Z); (99, Atom 2%Z); (100, Atom 3%Z)])])] [];
+   BCfg [(115, Obj [(97, Atom 1%Z); (98, Obj [(97, Atom 4%Z); (99, Atom 2%Z); (100, Atom 3%Z)])])] [];
+   BGet (GOk (Obj [(97, Atom 4%Z); (99, Atom 2%Z); (100, Atom 3%Z)]))].
+Proof. vm_compute. reflexivity. Qed.
+(* null at an inner node against a concurrent write below it: transaction 0 unsets b, transaction 1 writes b.d.
+   0 then 1: b is removed, then re-created holding only d (the later commit wins, the old member c is gone);
+   1 then 0: b gets d, then the whole of b is removed. The paths are comparable, so the later commit decides. *)
+Example ex_inner_null_then_write :
+  run (mkState ex_cfg [] []) [ONew; ONew; OSet 0 115 [98] Null; OSet 1 115 [98; 100] (Atom 4%Z); OGet 0 115 [98]; OGet 1 115 [98];
+                              OCommit 0; OCommit 1; ONew; OGet 2 115 [98]] =
+  [BCfg ex_cfg []; BCfg ex_cfg []; BSet true; BSet true; BGet GNoOption; BGet (GOk (Obj [(99, Atom 2%Z); (100, Atom 4%Z)]));
+   BCfg [(115, Obj [(97, Atom 1%Z)])] []; BCfg [(115, Obj [(97, Atom 1%Z); (98, Obj [(100, Atom 4%Z)])])] [];
+   BCfg [(115, Obj [(97, Atom 1%Z); (98, Obj [(100, Atom 4%Z)])])] []; BGet (GOk (Obj [(100, Atom 4%Z)]))].
+Proof. vm_compute. reflexivity. Qed.
+Example ex_write_then_inner_null :
+  run (mkState ex_cfg [] []) [ONew; ONew; OSet 0 115 [98] Null; OSet 1 115 [98; 100] (Atom 4%Z); OCommit 1; OCommit 0; ONew;
+                              OGet 2 115 [98]; OGet 2 115 [97]] =
+  [BCfg ex_cfg []; BCfg ex_cfg []; BSet true; BSet true;
+   BCfg [(115, Obj [(97, Atom 1%Z); (98, Obj [(99, Atom 2%Z); (100, Atom 4%Z)])])] [];
+   BCfg [(115, Obj [(97, Atom 1%Z)])] []; BCfg [(115, Obj [(97, Atom 1%Z)])] []; BGet GNoOption; BGet (GOk (Atom 1%Z))].
+Proof. vm_compute. reflexivity. Qed.
